@@ -1,7 +1,7 @@
 (* Properties_C09.v — C09: integer roots, remainders and perfect-power tests are exact.
    Statements only. *)
 From Coq Require Import ZArith List Bool.
-From Mpir Require Import Word DivDefs RootDefs RootProofs TablesDefs TablesProofs.
+From Mpir Require Import Word Limbs DivDefs SqrtDefs SqrtProofs RootDefs RootProofs TablesDefs TablesProofs.
 From MpirGen Require Import Gen_Consts.
 Import ListNotations.
 Local Open Scope Z_scope.
@@ -50,6 +50,32 @@ Print Assumptions C09_perfect_tests.
 Theorem C09_sqrt_seed_table : forall i, 64 <= i < 256 -> nth (Z.to_nat (i - 64)) sqrt_approx_tab 0 = Z.sqrt (256 * i).
 Proof. exact sqrt_tab_entries. Qed.
 Print Assumptions C09_sqrt_seed_table.
+
+
+(* ---- mpn/generic/sqrtrem.c AS CODED, with limbs, carries and the C int / limb conversions (SqrtDefs.v; its seed table is the
+   REGENERATED approx_tab), the executable model of the family mpn_sqrtrem-as-coded ---- *)
+
+(* the one-limb square root: table seed (a sweep over all leading 16-bit values of the regenerated table, lifted), the single
+   correction, two Newton steps: root and remainder of EVERY normalised limb *)
+Theorem C09_sqrtrem1_as_coded : forall a, 2 ^ 62 <= a < 2 ^ 64 ->
+  SqrtDefs.sqrtrem1 a = Some (Z.sqrt a, a - Z.sqrt a * Z.sqrt a, if a - Z.sqrt a * Z.sqrt a =? 0 then 0 else 1).
+Proof. exact sqrtrem1_correct. Qed.
+Print Assumptions C09_sqrtrem1_as_coded.
+
+Theorem C09_sqrtrem2_as_coded : forall a1 a0, 2 ^ 62 <= a1 < 2 ^ 64 -> 0 <= a0 < 2 ^ 64 ->
+  let x := a1 * 2 ^ 64 + a0 in let S := Z.sqrt x in
+  SqrtDefs.sqrtrem2 a1 a0 = Some ((x - S * S) / 2 ^ 64, S, (x - S * S) mod 2 ^ 64) /\ 2 ^ 63 <= S < 2 ^ 64 /\ 0 <= x - S * S <= 2 * S.
+Proof. exact sqrtrem2_correct. Qed.
+Print Assumptions C09_sqrtrem2_as_coded.
+
+(* the divide-and-conquer recursion with its carries q, c, b, both borrow paths and the final correction, for every n and every
+   normalised 2n-limb operand *)
+Theorem C09_dc_sqrtrem_as_coded : forall n N fuel, 1 <= n -> (Z.to_nat n <= fuel)%nat -> Bk (2 * n) <= 4 * N -> N < Bk (2 * n) ->
+  let S := Z.sqrt N in
+  SqrtDefs.dc_sqrtrem fuel n N = Some ((N - S * S) / Bk n, S, (N - S * S) mod Bk n)
+  /\ S < Bk n /\ Bk n <= 2 * S /\ 0 <= N - S * S <= 2 * S /\ 0 <= (N - S * S) / Bk n <= 1.
+Proof. exact dc_sqrtrem_correct. Qed.
+Print Assumptions C09_dc_sqrtrem_as_coded.
 
 Example C09_nonvacuous :
   mpn_sqrtrem (2 ^ 128 - 1) = (2 ^ 64 - 1, 2 ^ 65 - 2) /\ mpz_root (-27) 3 = ROk (-3, true)
